@@ -4,7 +4,7 @@ From Verif Require Import Sx Str Tok.
 From Verif.Gen Require Import Consts Sanitizer Serializer.
 From Verif.Model Require Import CharRef TokBase Ser C09 C10.
 From Verif.Spec Require Import TokSpec.
-From Verif.Proofs Require Import C09 C10 C08 SpecTac C08tag C10lex.
+From Verif.Proofs Require Import C09 C10 C08 SpecTac C08tag C10lex C08units C10units.
 Import ListNotations.
 Local Open Scope N_scope.
 
@@ -63,6 +63,17 @@ Theorem c10_sanitizer_position :
    [115;97;110;105;116;105;122;101;114];
    [111;112;116;105;111;110;97;108;116;97;103;115]].
 Proof. exact sanitizer_position. Qed.
+
+(* ... and the way a parser reads it: textarea (the one allowed element that switches the tokenizer: RCDATA) holds only
+   text in a parsed tree.  For EVERY walker stream given as units -- tokens outside textarea, textarea elements with
+   text -- the sanitized, serialized markup is read back, with the state switch after <textarea> made explicit
+   (Proofs/C08units.v: reads), as exactly the sanitized units *)
+Theorem c10_sanitized_units_read_back : forall o, qc_ok o -> forall us txt errs rest cu tm out0 cd,
+  Forall wunit_ok us -> san_ser o (flat_map wflatten us) = Some (txt, errs) ->
+  exists k', reads o (flat_map (san_unit (fun s => s)) us) (mk_tk dataState (txt ++ rest) cu tm out0 cd false) k' /\
+             st k' = dataState /\ inp k' = rest /\
+             out k' = rev (flat_map (rd_unit o) (flat_map (san_unit (fun s => s)) us)) ++ out0.
+Proof. exact sanitized_units_read_back. Qed.
 
 (* PARTIAL.  What is proved is lexical (token level): the sanitized output is re-tokenized into exactly the
    sanitized stream, so nothing the sanitizer removed can come back as a tag or attribute, and text stays text.  That re-parsing cannot move an ALLOWED tag into a context where it means something else (namespace
